@@ -34,7 +34,7 @@ CHECKS = {
    note="The pure-input part of the property (all byte strings, grammar-level mutations) is only sampled through content faults; no grammar coverage is claimed. The CPU limit is far above a normal run (10 s; 120 s for multiplied inputs), so it fires on non-termination or blow-up only.",
    technique="deterministic simulation: content, reader and system-call fault injection with crash/hang oracle"),
  "C15": dict(level="fault_enumeration", design="§5.6",
-   text="Refinement against the reference model 'textual inclusion, then the same analyzer': generated programs are cut at line boundaries into include trees (depth, sub-directories, several includes, missing file, self-include, two-cycle, file included twice) and linted through the in-memory FileReader under three reader personalities and a reader fault plan (five error kinds x import index), through the editor integration's real LSPFileReader (compiled in by path), and through the real CLI reader under file-system faults (failing n-th open, short reads, EINTR) and shapes (missing file, directory / dangling symlink / invalid UTF-8 in place of a file, an included file behind a directory symlink whose own includes climb out with ..); the diagnostics must equal those of the pasted single file mapped back through the line map, every failed include must yield exactly one error on its directive, everything else must still be analysed, and the run must end within the import budget. Fault enumeration over kind x instant for the reader faults, exploration for the program/cut space.",
+   text="Refinement against the reference model 'textual inclusion, then the same analyzer': generated programs are cut at line boundaries into include trees (depth, sub-directories, several includes, missing file, self-include, two-cycle, file included twice) and linted through the in-memory FileReader under three reader personalities and a reader fault plan (five error kinds x import index), through the editor integration's real LSPFileReader (compiled in by path), and through the real CLI reader under file-system faults (failing n-th open, short reads, EINTR) and shapes (missing file, directory / dangling symlink / invalid UTF-8 in place of a file, an included file behind a directory symlink whose own includes climb out with ..); the diagnostics must equal those of the pasted single file mapped back through the line map, every failed include must yield exactly one error on its directive, everything else must still be analysed, and the run must end within the import budget; in a tail variant (one run in sixteen) included files end inside a line and directives are followed by further tokens on their own line, compared against a character-level paste by severity, title and description. Fault enumeration over kind x instant for the reader faults, exploration for the program/cut space.",
    note="Trusted: the cutter's line map (paste(cut(p)) = p by construction), the harness's model of which include fails (validated against the reader's import log on every run; a mismatch is counted, never reported). For a file that ends, without a newline, in the middle of a statement only the position of that statement's items is exempt (line accounting, C07/C09); the items themselves must agree.",
    technique="deterministic simulation: reader/file-system fault injection with refinement against a paste model"),
  "C18": dict(level="exploration", design="§5.7",
